@@ -108,7 +108,7 @@ end AbiBuffer
 
 theorem decode_blocked : RetCode.decode Host.BLOCKED = some .blocked := by decide
 
-theorem decode_pack (base k : Nat) (hb : base < 3) (hk : k < 268435455) :
+theorem decode_pack (base k : Nat) (hb : base < 3) (hk : k ≤ 268435455) :
     RetCode.decode (Host.packCode base k) =
       some (if base = 0 then .completed k else if base = 1 then .dropped k else .cancelled k) := by
   unfold RetCode.decode Host.packCode
@@ -130,7 +130,7 @@ def sresOf (base k : Nat) : SRes :=
 lists of exactly the first `k` values of the window are deallocated (in order), and the writer is
 marked done exactly for DROPPED with `k > 0`. -/
 theorem streamWrite_update_spec (p : WSt) (base k : Nat) (hb : base < 3) (hk : k ≤ p.buf.remaining)
-    (hk2 : k < 268435455) (hc : p.buf.cursor ≤ p.buf.items.length) :
+    (hk2 : k ≤ 268435455) (hc : p.buf.cursor ≤ p.buf.items.length) :
     streamWriteUpdate p (Host.packCode base k) =
       .ok (.inl (sresOf base k,
         { buf := { p.buf with cursor := p.buf.cursor + k }, wr := { p.wr with done := p.wr.done || (base == 1 && k != 0) } }))
@@ -150,7 +150,7 @@ theorem streamWrite_update_spec (p : WSt) (base k : Nat) (hb : base < 3) (hk : k
 /-- a count beyond what was offered makes the runtime panic (`assert!` in `advance`) — never for a
 conforming host -/
 theorem streamWrite_update_panics (p : WSt) (base k : Nat) (hb : base < 3) (hk : p.buf.remaining < k)
-    (hk2 : k < 268435455) :
+    (hk2 : k ≤ 268435455) :
     ∃ m evs, streamWriteUpdate p (Host.packCode base k) = .panic m evs := by
   have hpos : 0 < k := by omega
   have hadv : ∃ m, p.buf.advance k = .panic m [] := by
@@ -168,7 +168,7 @@ with `k` ≤ the spare capacity, the result is `Complete(k)` (`Dropped`/`Cancell
 exactly the first `k` values the host wrote are appended to the vector (each lifted once, in order, if
 the payload needs lifting), the slab is released, and the reader is marked done exactly for DROPPED
 with `k > 0`. -/
-theorem streamRead_update_spec (p : RSt) (base k : Nat) (hb : base < 3) (hk : k ≤ p.spare) (hk2 : k < 268435455) :
+theorem streamRead_update_spec (p : RSt) (base k : Nat) (hb : base < 3) (hk : k ≤ p.spare) (hk2 : k ≤ 268435455) :
     streamReadUpdate p (Host.packCode base k) =
       .ok (.inl (sresOf base k,
         { p with buf := p.buf ++ p.mem.take k, spare := p.spare - k, slab := false, mem := [],
